@@ -69,7 +69,7 @@ def main():
         if sum(1 for e in refs[i] if e[1] == "I") >= 2:
             nontriv += 1
         for (iface, kind, detail) in probs:
-            cls = "sorted-delay-lists" if scn[i]["sorted"] else "unsorted-delay-lists"
+            cls = ("sorted-delay-lists" if scn[i]["sorted"] else "unsorted-delay-lists") + ("+late-delays" if scn[i].get("late") else "") + ("+negative-times" if scn[i].get("shift", 0) > scn[i]["tmin"] else "")
             chk.violation("%s|%s|%s" % (iface, kind, cls), detail + " [scenario %d]" % i,
                           {"scenario": scn[i], "reference_log": refs[i], "interface": iface})
     chk.cov["distinct_nontrivial"] = nontriv
